@@ -74,14 +74,14 @@ SDL = re.compile(r"^\s+(free\(|\w+_unlock\(|\w+->unlock\(|Q_MUTEX_LEAVE\(|[\w\->
 CONST = [("true", "false"), ("false", "true"), ("NULL;", "(void*)1;"), (" 0;", " 1;"), ("-1", "0")]
 
 
-def gen(per_file, seed):
+def gen(per_file, seed, ops2=False, prefix="M"):
     rnd = random.Random(seed)
     os.makedirs(OUT, exist_ok=True)
     allm = []
     for path in FILES:
         cands = []
         for i, line in code_lines(path):
-            for group, name in ((ROR, "ROR"), (LCR, "LCR"), (AOR, "AOR"), (CONST, "CONST")):
+            for group, name in (() if ops2 else ((ROR, "ROR"), (LCR, "LCR"), (AOR, "AOR"), (CONST, "CONST"))):
                 for a, b in group:
                     start = 0
                     while True:
@@ -92,7 +92,24 @@ def gen(per_file, seed):
                         if line[:k].count('"') % 2 == 0 and not (a in ("-1",) and k > 0 and line[k - 1].isalnum()):
                             cands.append((i, name, line, line[:k] + b + line[k + len(a):]))
                         start = k + len(a)
-            if SDL.match(line) and "return" not in line and not re.match(r"^\s+(int|size_t|bool|char|void|uint\w+|q\w+_t)\b", line):
+            if ops2:
+                # second operator set: negated conditions, deleted break/continue, swapped neighbour links, off-by-one sizes
+                m = re.match(r"^(\s*(?:\} else )?if \()(.*)(\) \{\s*)$", line)
+                if m and "&&" not in m.group(2) and "||" not in m.group(2):
+                    cands.append((i, "NEG", line, m.group(1) + "!(" + m.group(2) + ")" + m.group(3)))
+                if re.match(r"^\s+(break|continue);\s*$", line):
+                    cands.append((i, "BRK", line, re.match(r"^\s*", line).group(0) + ";"))
+                for a, b in (("->next", "->prev"), ("->prev", "->next"), ("->left", "->right"), ("->right", "->left"), ("->first", "->last"), ("->last", "->first")):
+                    k = line.find(a)
+                    if k >= 0 and line[:k].count('"') % 2 == 0:
+                        cands.append((i, "LNK", line, line[:k] + b + line[k + len(a):]))
+                for fn in ("malloc(", "memcpy(", "memmove(", "calloc(", "realloc(", "memset("):
+                    k = line.find(fn)
+                    if k >= 0 and line.rstrip().endswith(");"):
+                        e = line.rstrip().rfind(");")
+                        cands.append((i, "SIZ", line, line[:e] + " - 1);"))
+                        cands.append((i, "SIZ", line, line[:e] + " + 1);"))
+            if not ops2 and SDL.match(line) and "return" not in line and not re.match(r"^\s+(int|size_t|bool|char|void|uint\w+|q\w+_t)\b", line):
                 cont = " \\" if line.rstrip().endswith("\\") else ""
                 cands.append((i, "SDL", line, re.match(r"^\s*", line).group(0) + ";" + cont))
         rnd.shuffle(cands)
@@ -107,9 +124,12 @@ def gen(per_file, seed):
                 break
         for c in chosen:
             allm.append(dict(file=path, line=c[0] + 1, op=c[1], before=c[2].strip(), after=c[3].strip(), _after_raw=c[3]))
+    existing = load("mutants.jsonl") if prefix != "M" else []
+    seen = {(m["file"], m["line"], m["after"]) for m in existing}
+    allm = [m for m in allm if (m["file"], m["line"], m["after"]) not in seen]
     for n, m in enumerate(allm):
-        m["id"] = "M%04d" % n
-    with open(os.path.join(OUT, "mutants.jsonl"), "w") as f:
+        m["id"] = "%s%04d" % (prefix, n)
+    with open(os.path.join(OUT, "mutants.jsonl"), "a" if prefix != "M" else "w") as f:
         for m in allm:
             f.write(json.dumps(m) + "\n")
     print("generated", len(allm), "mutants")
@@ -185,7 +205,7 @@ if __name__ == "__main__":
     def opt(name, d):
         return type(d)(a[a.index(name) + 1]) if name in a else d
     if a[0] == "gen":
-        gen(opt("--per-file", 50), opt("--seed", 7))
+        gen(opt("--per-file", 50), opt("--seed", 7), "--ops2" in a, opt("--prefix", "M"))
     elif a[0] == "run":
         only = set(opt("--only", "").split(",")) - {""}
         run(opt("--jobs", 4), opt("--budget", 4.0), only)
